@@ -80,8 +80,15 @@ def main(inp, outp):
                 back = Tle.from_orbit(orb_, name=t.name or None, norad_id=str(t.norad_id) if vi % 8 == 1 else int(t.norad_id), cospar_id=t.cospar_id or None)
             elif door == 2:
                 back = Tle.from_orbit(orb_.copy())
-            else:
+            elif name:
                 back = Tle.from_orbit(orb_.copy(form="keplerian_mean").copy(form="TLE"))
+            else:
+                # an orbit built by hand with just what a TLE needs - no name, no identifiers attached - written with the
+                # identification given as keyword arguments
+                from beyond.orbits import Orbit
+                hand = Orbit([float(x) for x in orb_], orb_.date, "TLE", "TEME", "Sgp4", bstar=t.bstar, ndot=t.ndot, ndotdot=t.ndotdot,
+                             element_nb=t.element_nb, revolutions=t.revolutions, classification=t.classification)
+                back = Tle.from_orbit(hand, norad_id=t.norad_id, cospar_id=t.cospar_id or None)
             btxt = str(back)
         except Exception as e:
             clause("the parsed orbit can be written back", False, "tle/writeback-raises", f"{type(e).__name__}: {e} for\n{text}", data)
